@@ -109,7 +109,12 @@ class RunModel:
 
 def neutral(s):
     """a statement without calls, yields or stores to names (docstring, pass, constant)"""
-    return isinstance(s, ast.Pass) or (isinstance(s, ast.Expr) and isinstance(s.value, ast.Constant))
+    if isinstance(s, ast.Pass) or (isinstance(s, ast.Expr) and isinstance(s.value, ast.Constant)):
+        return True
+    # an assignment of constants/names: no call, no yield, no iteration -> cannot run package code
+    if isinstance(s, ast.Assign) and all(isinstance(t, ast.Name) for t in s.targets) and isinstance(s.value, (ast.Constant, ast.Name)):
+        return True
+    return False
 
 
 def check_run_pipeline(ctx, rid):
